@@ -40,6 +40,7 @@ func c05(c *Ctx) {
 	c05derived(c)
 	c05prune(c)
 	c05owners(c)
+	c05deleteByEvent(c)
 
 	r.Rule("LOCK: reservationCache.{reservationInfos,reservationsOnNode,matchableOnNode,allocatedOnNode,preAllocatablePodsOnNode} are read under lock and written under the write lock")
 	c.RunLock("LOCK", LockCfg{Pkg: resvPkg, Type: "reservationCache", Mutex: "lock",
